@@ -28,3 +28,20 @@ c = contract('bardolph/lib/color.py', 'rounded_color', serves=['C07'])
 c.arg('color', ListOf(['real'] * 4), ListOf(['int'] * 4))
 for i in range(4):
     c.ensures('comp%d' % i, 'is_int(result[%d]) and result[%d] == round_he(color[%d])' % (i, i, i))
+
+# ColorMatrix._standardize_raw: per component identical to param_16; None passes through.
+# modular: callers (get_colors -> set_matrix) use this contract, which avoids 3^4 paths per cell.
+from pyvc.values import PyList
+def _std_result(I, env):
+    col = env.vars['color']
+    if col is None:
+        return None
+    return PyList([I.fresh('int', 'std%d' % i) for i in range(len(col.items))])
+c = contract('bardolph/controller/color_matrix.py', 'ColorMatrix._standardize_raw', serves=['C07', 'C15'], modular=True)
+c.arg('color', ListOf(['real'] * 4), ListOf(['int'] * 4), ListOf(['real', 'int', 'real', 'int']), Const(None, 'None'))
+c.returns(_std_result)
+c.ensures('none', 'is_none(color) ==> is_none(result)')
+c.ensures('len', 'not is_none(color) ==> len(result) == len(color)')
+for i in range(4):
+    c.ensures('comp%d' % i, 'not is_none(color) ==> is_int(result[%d]) and result[%d] == sent_u16(color[%d])' % (i, i, i))
+c.ensures('fresh-list', 'not is_none(color) ==> not same(result, color)')
